@@ -98,7 +98,9 @@ pub fn extract_camber_line(
     let stations1 = extract_half_camber_line(section, &spanning.reversed(), tol)?;
 
     reverse_inscribed_circles(&mut stations0);
-    stations0.extend(stations1);
+    // Both halves start with the inscribed circle of the same seed ray; keep only one copy of it so
+    // that the stations advance strictly along the camber line
+    stations0.extend(stations1.into_iter().skip(1));
 
     Ok(stations0)
 }
